@@ -42,7 +42,7 @@ def build_and_run(case):
         from pySDC.implementations.convergence_controller_classes.basic_restarting import BasicRestartingNonMPI
 
         cc[BasicRestartingNonMPI] = {'max_restarts': case['max_restarts'], 'crash_after_max_restarts': False}
-    desc = R.scalar_description(lam=case['lam'], dt=case['dt'], maxiter=case['maxiter'], levels=case['levels'], extra_cc=cc, num_nodes=case['num_nodes'], quad_type='RADAU-RIGHT')
+    desc = R.scalar_description(lam=case['lam'], dt=case['dt'], maxiter=case['maxiter'], levels=case['levels'], extra_cc=cc, num_nodes=case['num_nodes'], quad_type=case.get('quad_type', 'RADAU-RIGHT'), coll_update=case.get('coll_update', False))
     ctrl = R.make_controller(case['num_procs'], desc, mssdc_jac=case['jac'], predict_type=case.get('predict'))
     P = ctrl.MS[0].levels[0].prob
     u0 = P.dtype_u(P.init)
@@ -73,7 +73,7 @@ def tol_time(a, c, scale=0.0):
 def prop(case, r):
     t0, dt, Tend = case['t0'], case['dt'], case['Tend']
     scripted = bool(case.get('script'))
-    r.label(f'procs{min(case["num_procs"], 4)}{"+" if case["num_procs"] > 4 else ""}', f'levels{case["levels"]}', 'scripted' if scripted else 'fixed-dt', case['tend_mode'])
+    r.label(f'procs{min(case["num_procs"], 4)}{"+" if case["num_procs"] > 4 else ""}', f'levels{case["levels"]}', 'scripted' if scripted else 'fixed-dt', case['tend_mode'], case.get('quad_type', 'RADAU-RIGHT'), 'coll-update' if case.get('coll_update') else 'last-node')
     try:
         ctrl, u0, u0_bytes, uend, stats, blocks = build_and_run(case)
     except ControllerError as e:
@@ -143,6 +143,9 @@ def prop(case, r):
 
 def known_match(fid, clause, case, failure):
     tag, msg = failure
+    if fid == 'F16' and tag == 'chain-value':
+        quadrature_end = case.get('coll_update') or case.get('quad_type', 'RADAU-RIGHT') in ('GAUSS', 'RADAU-LEFT')
+        return bool(quadrature_end and case['num_procs'] >= 2)
     if fid == 'F4' and tag == 'step-count' and not case.get('script'):
         kind, N, rr = step_count_expectation(case['t0'], case['dt'], case['Tend'])
         if kind != 'integer':
@@ -186,6 +189,13 @@ def cases(draw, kmax=120):
         'u0': draw(S.small_float(-2, 2)), 'predict': draw(st.sampled_from([None, 'fine_only', 'pfasst_burnin'])) if levels > 1 else None,
         'script': None, 'max_restarts': None,
     }  # fmt: skip
+    qt = draw(st.sampled_from(['RADAU-RIGHT', 'RADAU-RIGHT', 'LOBATTO', 'GAUSS', 'RADAU-LEFT']))
+    if levels > 1 and num_procs > 1 and qt in ('GAUSS', 'RADAU-LEFT'):
+        qt = 'RADAU-RIGHT'  # PFASST needs the right end point as node (rejected otherwise, see C20)
+    case['quad_type'] = qt
+    case['coll_update'] = draw(st.booleans())
+    if qt in ('LOBATTO', 'RADAU-LEFT'):
+        case['num_nodes'] = max(2, case['num_nodes'])
     if draw(st.integers(0, 2)) == 0:
         n = draw(st.integers(1, 6))
         script = []
